@@ -69,6 +69,7 @@ type Node struct {
 	lwk        *fakeLwk // the simulated lwk behind the real LWK wallet, if selected
 	lwkCreated bool     // lwk's own persistent state: the wallet exists / which signer is loaded
 	lwkSigner  string
+	elemLoaded map[string]bool // elementsd's own state: loaded wallets (the daemon outlives peerswap restarts)
 	cln       *fakeCln // tier 3: the simulated lightningd behind the real clightning adapter
 	clnClient *clightning.ClightningClient
 	lndPending []inMsg
